@@ -38,7 +38,6 @@ ASSUMPTIONS = [
     'a backup that fails (BackupError) is inconclusive, not a violation',
 ]
 MAX_SHARDS = 16
-RUNS = (1, 2, 3, 5, 10, 30, 100, 10**9)
 MAINT = ('pack', 'pack_clean', 'clean', 'addpack', 'addpack_z')
 
 
@@ -49,20 +48,23 @@ def strategy():
             'pool': st.lists(gen.content_desc(2000, 0), min_size=4, max_size=10),
             'pre': st.lists(st.tuples(st.integers(0, 9), st.integers(0, 3)), min_size=1, max_size=6),
             'writers': st.lists(st.lists(st.integers(0, 9), min_size=1, max_size=3), min_size=1, max_size=2),
-            'maint': st.lists(st.tuples(st.sampled_from(MAINT), st.integers(0, 9), st.integers(0, 5)), min_size=1, max_size=4),
+            'maint': st.lists(st.tuples(st.sampled_from(MAINT), st.integers(0, 9), st.integers(0, 5)), min_size=3, max_size=8),
             'split_loose': st.integers(0, 65535),
             'split_packs': st.integers(0, 65535),
             'incremental': st.booleans(),
             'holder': st.sampled_from([True, True, False]),
             'early_maint': st.sampled_from([0, 0, 5, 30, 100, 10**9]),
+            # -1 = until the actor's next operation boundary: whole maintenance operations / adds are placed between the
+            # backup's yield points; positive run lengths pre-empt them in the middle
             'schedule': st.lists(
                 st.one_of(
-                    st.tuples(st.just('backup'), st.sampled_from((1, 1, 1, 2, 3))),
-                    st.tuples(st.just('maint'), st.sampled_from(RUNS)),
-                    st.tuples(st.just('maint'), st.sampled_from(RUNS)),
-                    st.tuples(st.just('w'), st.sampled_from(RUNS)),
+                    st.tuples(st.just('backup'), st.sampled_from((1, 1, 1, 2))),
+                    st.tuples(st.just('backup'), st.just(1)),
+                    st.tuples(st.just('maint'), st.just(-1)),
+                    st.tuples(st.just('maint'), st.sampled_from((-1, -1, 3, 10, 30, 100))),
+                    st.tuples(st.just('w'), st.sampled_from((-1, -1, 5))),
                 ),
-                min_size=2,
+                min_size=10,
                 max_size=40,
             ),
         }
@@ -127,6 +129,7 @@ def run_case(case):  # pylint: disable=too-many-locals,too-many-statements,too-m
                     data = pool[idx % len(pool)]
                     key = cont.add_object(data)
                     stored[key] = data
+                    sched.boundary(actor)
             finally:
                 cont.close()
 
@@ -135,9 +138,14 @@ def run_case(case):  # pylint: disable=too-many-locals,too-many-statements,too-m
     def maintenance(actor):
         cont = Container(path)
         try:
-            for kind, idx, mode in case['maint']:
+            for number, (kind, idx, mode) in enumerate(case['maint']):
                 sched.mark(actor.name, 'op-start', kind)
                 if kind in ('pack', 'pack_clean'):
+                    # this client first stores something new itself, so that every packing step has work to do
+                    fresh = pool[idx % len(pool)] + b'-maint-%d' % number
+                    key = cont.add_object(fresh)
+                    stored[key] = fresh
+                    universe[key] = fresh
                     cont.pack_all_loose(compress=_mode(MODES_PACK[mode % len(MODES_PACK)]), clean_loose_per_pack=kind == 'pack_clean')
                 elif kind == 'clean':
                     cont.clean_storage()
@@ -147,6 +155,7 @@ def run_case(case):  # pylint: disable=too-many-locals,too-many-statements,too-m
                     stored[key[0]] = data
                     stored[key[1]] = pool[(idx + 1) % len(pool)]
                 sched.mark(actor.name, 'op-end', kind)
+                sched.boundary(actor)
         finally:
             cont.close()
 
@@ -260,6 +269,8 @@ def run_case(case):  # pylint: disable=too-many-locals,too-many-statements,too-m
     for name, count in inside.items():
         if count:
             labels.append(f'inside-backup:{name}')
+    for gap in commit_gaps(trace):
+        labels.append(f'maint-commit-after:{gap}')
     phases = [b for a, k, b in trace if a == 'backup' and k == 'phase']
     if any(p.startswith('inside-') for p in phases):
         labels.append('split-inside-phase')
@@ -268,6 +279,18 @@ def run_case(case):  # pylint: disable=too-many-locals,too-many-statements,too-m
     sample = {'incremental': case['incremental'], 'maintenance': [m[0] for m in case['maint']], 'phases': phases, 'concurrent_inside_backup': inside,
               'events': len(trace)}
     return nontrivial, fp, sample, labels
+
+
+def commit_gaps(trace):
+    """The backup yield points after which (before the next one) a maintenance commit happened."""
+    gaps = set()
+    last = None
+    for actor, kind, brief in trace:
+        if actor == 'backup' and kind == 'phase':
+            last = brief
+        elif actor == 'maint' and kind == 'sql-commit' and last is not None and last != 'before-final-rename':
+            gaps.add(last)
+    return sorted(gaps)
 
 
 def _age(folder, when=946684800):
